@@ -79,16 +79,13 @@ type-correct module list `p`, where `Realisable` reads attributes with the DOCUM
 (`declared`: the unqualified attribute of that name).
 
 PROVED: the statement below.  What is missing from the full one:
- (1) `Realisable` (Spec/Constraints.lean) reads attributes with `getAttr`, i.e. with the front
-     end's `ir_util.get_attribute`, which ignores the back-end qualifier; the two lookups agree
-     on every list without qualified attributes (`C14_lookup_unqualified`), and
-     `C14_qualified_attribute_counterexample` shows that the REAL front end accepts a
-     non-realisable module otherwise (open finding).
+ (1) nothing any more: `Realisable` reads attributes with `getAttr`, which IS the documented
+     lookup `declared` (`C14_lookup_documented`) since `ir_util.get_attribute` honours the
+     back-end qualifier.
  (2) the side conditions `TypeWF` ("resolved, type-correct"): structures are bit- or
-     byte-addressed; scalar field sizes have finite bounds; `is_signed`, if present, is a literal.
-     Outside (2) the Python raises an exception instead of reporting an error
-     (`C14_unbounded_size_crash_counterexample`, `C14_signed_nonliteral_crash_counterexample`;
-     open findings).
+     byte-addressed; scalar field sizes have finite bounds (otherwise the 64-bit gate rejects
+     the module in the same pass; the model no longer raises there); `is_signed`, if present, is
+     a constant boolean (what the attribute pass has established).
 All rule families are inside: parameter rules, attribute table (scope / `$default` / duplicate /
 value), expected back ends, `fixed_size_in_bits`, `maximum_bits`, `is_signed` and enum value
 ranges, `addressable_unit_size`, byte order (needed / not allowed / `Null`, `$default`
@@ -327,24 +324,22 @@ theorem C14_lookup_unqualified (attrs : List Attr) (n : String) (h : UnqAttrs at
     getAttr attrs n = declared attrs n :=
   getAttr_eq_declared attrs n h
 
-/-- COUNTEREXAMPLE (real defect, replayed by the harness; open finding): the model — like the
-real front end — accepts a 2-byte `UInt` whose only byte order is the back-end-qualified
-`[(xx) byte_order: "BigEndian"]`, although by the documented (unqualified) lookup the field has
-no byte order, no default applies and it is not one byte long. -/
-theorem C14_qualified_attribute_counterexample :
-    check exQualified = [] ∧
-    declared (exField 2 [⟨"byte_order", "xx", false, .str "BigEndian"⟩]).attrs "byte_order" = none ∧
-    check exNoByteOrder = [.boRequired] := by decide +kernel
+/-- The front end's lookup IS the documented one (since the repair of `ir_util.get_attribute`:
+only unqualified attributes are considered), on every attribute list. -/
+theorem C14_lookup_documented (attrs : List Attr) (n : String) :
+    getAttr attrs n = declared attrs n := rfl
 
-/-- COUNTEREXAMPLE to dropping `TypeWF.signedLit` (open finding: the real front end raises
-AssertionError): `[is_signed: 1 == 1]` passes the attribute checks, then the lookup of
-`is_signed` trips the duplicate assertion; the module is realisable as documented. -/
-theorem C14_signed_nonliteral_crash_counterexample :
-    check exSignedNonLiteral = [.crash] := by decide +kernel
+/-- Formerly a counterexample (fixed): a 2-byte `UInt` whose only byte order is the
+back-end-qualified `[(xx) byte_order: "BigEndian"]` has no byte order and is rejected, exactly
+like the field without any attribute. -/
+example : check exQualified = [.boRequired] ∧ check exNoByteOrder = [.boRequired] := by
+  decide +kernel
 
-/-- COUNTEREXAMPLE to dropping `TypeWF.bounds` (open finding: ValueError in
-`_check_type_requirements_for_field`): a scalar field whose size has unbounded range. -/
-theorem C14_unbounded_size_crash_counterexample :
-    check exUnbounded = [.crash] := by decide +kernel
+/-- Formerly raising inputs (fixed): `[is_signed: 1 == 1]` is read as `true` (the value 1 of
+`AA` fits); a scalar field whose size has unbounded range is not an exception any more (the
+module is rejected by the 64-bit gate on the size expression, which is outside this abstract
+program: `gated = []`). -/
+example : check exSignedNonLiteral = [] ∧ check exUnbounded = [.reqNotMet "UInt"] := by
+  decide +kernel
 
 end Emboss.Constraints
